@@ -38,6 +38,8 @@ FAULTS = [
     ("undefined-operand", "lda zz_nowhere"), ("undefined-operand", "lda.w #zz_nowhere"),
     ("undefined-data", ".dw zz_nowhere"), ("undefined-data", ".db 1, zz_nowhere + 1"), ("undefined-org", "*=zz_nowhere"),
     ("undefined-macro", "zz_nomacro(1, 2)"), ("too-few-arguments", ".macro zz_m(a, b) {\n.db a, b\n}\nzz_m(1)"),
+    ("unterminated-string-backslash", ".ascii 'C:\\\nnop ; '"), ("unterminated-string-backslash", ".ascii 'dir\\\n.ascii 'next'"),
+    ("unterminated-string-backslash", ".text 'a\\\n; it's\nnop"),
     ("unsupported-mode", "stz (1),y"), ("unsupported-mode", "jmp 1,x"),
     # an index register behind a mode that has no indexed form at all, or not this one for the mnemonic
     ("unsupported-index", "lda #0x10,x"), ("unsupported-index", "ldx.w #0x1234, y"), ("unsupported-index", "rep #0x30,x"),
@@ -57,6 +59,8 @@ FAULTS = [
     ("included:bad-index", ".include 'inc_badindex.s'"), ("included:unterminated-string", ".include 'inc_string.s'"),
     ("included:syntax", ".include 'inc_syntax.s'"), ("included:undefined", ".include 'inc_undef.s'"),
     ("included:nested-bad-suffix", ".include 'inc_outer.s'"),
+    # (the model has no undecodable files - its files are strings -, so these two are judged by the oracle alone)
+    ("included:not-utf8", ".include 'inc_notutf8.s'"), ("included:not-utf8", ".include 'inc_latin.s'"),
     # an undefined name on the right of `=` / as a macro argument whose parameter is never used, or shadows an outer symbol
     ("undefined-symbol-rhs", "zz_s = zz_nowhere + 1"), ("undefined-symbol-rhs-used", "zz_s2 = zz_nowhere\nlda.w #zz_s2"),
     ("undefined-deferred-arg-unused", ".macro zz_mu(a) {\nnop\n}\nzz_mu(zz_nowhere)"),
@@ -84,7 +88,9 @@ FILES = {"pad200.bin": [0xEA] * 200, "pad128.bin": [0xEA] * 128, "pad127.bin": [
          "bad.ips": list(b"PATCH\x00\x00\x10\x00\x05ab"),
          "inc_badindex.s": "nop\nlda 0x10,z\nrts\n", "inc_string.s": "nop\n.ascii 'oops\nrts\n",
          "inc_syntax.s": "nop\nlda (1\nrts\n", "inc_undef.s": "nop\n.dw zz_never_defined\n",
-         "inc_outer.s": "nop\n.include 'inc_inner.s'\nrts\n", "inc_inner.s": "lda.q #1\n"}
+         "inc_outer.s": "nop\n.include 'inc_inner.s'\nrts\n", "inc_inner.s": "lda.q #1\n",
+         # not text at all: bytes that are no valid UTF-8, placed so that dropping them would leave valid statements
+         "inc_notutf8.s": list(b"nop\nsta 0x21\xfe00\nrts\n"), "inc_latin.s": list(b"lda.b #1 ; caf\xe9\nrts\n")}
 
 
 def cases(ctx):
@@ -129,6 +135,8 @@ def cases(ctx):
             c = {"kind": f"fault:{kind}", "rom": rom, "mapping": rom, "src": src, "files": files, "format": fmt,
                  "copier": fmt == "ips" and rng.random() < 0.3, "api": True, "count_empty": True,
                  "spec": {"t": "c14", "must_fail": True}}
+            if kind == "included:not-utf8":
+                c["corr"] = False
             if cli_budget > 0 and rng.random() < 0.5:
                 c["cli"] = True
                 cli_budget -= 1
